@@ -28,6 +28,7 @@ type genOpts struct {
 	layouts       bool
 	secondOp      bool // a second operator swap on the same channel (both spellings)
 	peerOps       bool // the peer also initiates
+	realLWallet   int  // percent of elementsd-backed nodes that run the real wallet.ElementsRpcWallet over a simulated elementsd
 	clnAdapters   int  // percent of cln-flavoured nodes that run the real clightning adapter over the simulated lightningd (tier 3)
 	adapters      int  // percent of lnd-flavoured nodes that run the real lnd adapter over the simulated LND (tier 2)
 	csvBurst      int  // percent of plans in which the chain jumps past the CSV during the fault phase (with service outages around the jump)
@@ -100,6 +101,14 @@ func genPlan(t *rapid.T, o genOpts) *world.Plan {
 	}
 	if o.adapters == 0 {
 		o.adapters = 40 // default share of lnd-flavoured nodes running the real adapter (tier 2); negative = none
+	}
+	if o.realLWallet == 0 {
+		o.realLWallet = 40
+	}
+	for i := 0; i < 2; i++ {
+		if o.realLWallet > 0 && scn.LiquidBackend[i] == "elementsd" && rapid.IntRange(0, 99).Draw(t, "real-lwallet") < o.realLWallet {
+			scn.RealLiquidWallet[i] = true
+		}
 	}
 	for i := 0; i < 2; i++ {
 		if o.adapters > 0 && scn.Flavor[i] == "lnd" && rapid.IntRange(0, 99).Draw(t, "adapter") < o.adapters {
